@@ -12,7 +12,7 @@ from gcmpy.tools.joint_excess_joint_degree import JointExcessJointDegree
 from gcmpy.tools.joint_excess_degree import JointExcessDegree
 from gcmpy.names.tools_names import ToolsNames
 
-from .. import netsim, setseam
+from .. import netsim, setseam, interesting
 from ..engine import describe_exc
 
 setseam.install(_jejd_module)
@@ -64,6 +64,10 @@ def generate(prng, tier, index):
     sc["ops"] = ops
     sc["names_prefix"] = prng.choice((ntop, ntop, ntop, max(1, ntop - 1)))
     sc["set_order"] = prng.choice(("natural", "natural", "reversed", "shuffled"))
+    if prng.random() < 0.3:
+        sc["extra_attrs"] = [prng.choice(interesting.ATTR_NAMES[:12]), prng.choice(("int", "float", "str"))]
+    if source == "direct" and prng.random() < 0.25:
+        sc["spec"]["jd_type"] = "list"
     return sc
 
 
@@ -174,6 +178,7 @@ def _execute(sc, ctx):
         if loops:
             G.remove_edges_from(loops)
             ctx.probe("self_loops_removed")
+    netsim.decorate(G, sc.get("extra_attrs"))
     names = netsim.names({"topos": topos})[: sc.get("names_prefix", len(topos))]
     before = netsim.snapshot(G) if sc["source"] != "huge" else (G.number_of_nodes(), G.number_of_edges())
 
